@@ -72,6 +72,10 @@ structure St where
   mbr : Nat := 0
   /-- `readFile != nil` -/
   rOpen : Bool := false
+  /-- `bufio.Reader` over the read file: bytes fetched from the file and not yet consumed -/
+  rbuf : Bytes := []
+  /-- offset of the read file descriptor (= position after the fetched bytes) -/
+  rfd : Nat := 0
   needSync : Bool := false
   /-- `count` of `ioLoop` -/
   count : Nat := 0
@@ -105,12 +109,35 @@ def writeOne (s : St) (d : Bytes) : Bool × St :=
   else if needRoll s d then (true, appendRec (rollWrite s) d)
   else (true, appendRec s d)
 
-/-- the `os.OpenFile` part of `readOne` (`none`: the file does not exist) -/
+/-- size of the buffer of `bufio.NewReader` -/
+def bufSize : Nat := 4096
+
+/-- `bufio.Reader.Read` under `io.ReadFull`: consume `n` bytes known to be available in the stream
+`rbuf ++ content.drop rfd`. Buffered bytes first; for the rest a direct read when it is at least one
+buffer long, otherwise ONE read of up to `bufSize` bytes into the buffer. Returns the new buffer and
+descriptor offset. (The fetched bytes are a snapshot: the writer overwriting them later is not seen.) -/
+def consume (rbuf : Bytes) (rfd : Nat) (content : Bytes) (n : Nat) : Bytes × Nat :=
+  if n ≤ rbuf.length then (rbuf.drop n, rfd)
+  else if bufSize ≤ n - rbuf.length then ([], rfd + (n - rbuf.length))
+  else (((content.drop rfd).take bufSize).drop (n - rbuf.length), rfd + ((content.drop rfd).take bufSize).length)
+
+/-- what the reader will see next: buffered bytes, then the file from the descriptor offset on -/
+def St.stream (s : St) : Bytes := s.rbuf ++ (s.fs.content s.rf).drop s.rfd
+
+/-- the `os.OpenFile` (+ `Seek(readPos)`) part of `readOne` (`none`: the file does not exist) -/
 def openRead (s : St) : Option St :=
   if s.rOpen then some s
   else match s.fs.dat s.rf with
     | none => none
-    | some c => some { s with rOpen := true, mbr := if s.rf < s.wf then c.length else s.cfg.maxBytesPerFile }
+    | some c => some { s with rOpen := true, rbuf := [], rfd := s.rp,
+                              mbr := if s.rf < s.wf then c.length else s.cfg.maxBytesPerFile }
+
+/-- the two `io.ReadFull`s of a successful `readOne`: 4 bytes, then the body -/
+def consumed (s : St) (d : Bytes) : St :=
+  { s with rbuf := (consume (consume s.rbuf s.rfd (s.fs.content s.rf) 4).1 (consume s.rbuf s.rfd (s.fs.content s.rf) 4).2
+                      (s.fs.content s.rf) d.length).1,
+           rfd := (consume (consume s.rbuf s.rfd (s.fs.content s.rf) 4).1 (consume s.rbuf s.rfd (s.fs.content s.rf) 4).2
+                      (s.fs.content s.rf) d.length).2 }
 
 def afterRead (s : St) (d : Bytes) : St :=
   if s.rf < s.wf ∧ s.mbr ≤ s.rp + (4 + d.length) then
@@ -122,9 +149,9 @@ def readOne (s : St) : Bool × St :=
   match openRead s with
   | none => (false, { s with rOpen := false })
   | some s1 =>
-    match dqRead s1.cfg.minMsgSize s1.cfg.maxMsgSize ((s1.fs.content s1.rf).drop s1.rp) with
+    match dqRead s1.cfg.minMsgSize s1.cfg.maxMsgSize s1.stream with
     | none => (false, { s1 with rOpen := false })
-    | some r => (true, afterRead s1 r.1)
+    | some r => (true, afterRead (consumed s1 r.1) r.1)
 
 def skipToNextRWFile (s : St) : St :=
   { s with fs := { s.fs with dat := rmRange s.fs.dat s.rf s.wf }, rOpen := false,
